@@ -144,14 +144,26 @@ def _eval(node: Any, path: str, attempt: int, me: str) -> Any:
         total = node[1]
         for i, ch in enumerate(node[2]):
             if me == "dprog":
-                total += HOOKS["dprog_call"](ch, f"{path}.{i}")
+                total += HOOKS["dprog_call"](ch, f"{path}.{i}") or 0
             else:
-                total += _this_task(me)(ch, f"{path}.{i}").result
+                total += _this_task(me)(ch, f"{path}.{i}").result or 0
         return total
     if kind == "group":
         t = _this_task("prog")
         grp = t.parallelize([(ch, f"{path}.{i}") for i, ch in enumerate(node[2])])
-        return node[1] + sum(grp.results)
+        return node[1] + sum((r or 0) for r in grp.results)
+    if kind == "none":
+        return None
+    if kind == "twice":
+        # ["twice", base, child]: one child invocation whose result is read twice (a body is executed once per invocation, however often the result is read)
+        if me == "dprog":
+            r1 = HOOKS["dprog_call"](node[2], f"{path}.0")
+            r2 = r1
+        else:
+            inv = _this_task(me)(node[2], f"{path}.0")
+            r1 = inv.result
+            r2 = inv.result
+        return node[1] + (r1 or 0) + (r2 or 0)
     if kind == "par":
         # ["par", base, common_args, [per-call dicts]]: optional arguments omitted by a call take the function default
         grp = _this_task("opt3").parallelize([dict(d) for d in node[3]], common_args=dict(node[2]))
